@@ -125,6 +125,16 @@ def geo_factor(U, rng):
     Jm, Km, dJ = R(Jacobian(U.mesh)), R(JacobianInverse(U.mesh)), R(JacobianDeterminant(U.mesh))
     a, b = U.const((g,), 0), U.const((g,), 1)
     i, j, k, l = U.idx[:4]  # noqa: E741
+    if U.is_facet and rng.random() < 0.4:
+        # facet normals written the way a user writes them: n on an exterior facet, n('+'), n('-') and both in one
+        # term on an interior facet (on an immersed surface n('-') is NOT -n('+'))
+        from ufl import FacetNormal
+
+        n = FacetNormal(U.mesh)
+        if not U.interior:
+            return dot(n, a) + dot(n, b) ** 2
+        return rng.choice([lambda: dot(n("-"), a), lambda: dot(n("+"), a) * dot(n("-"), b), lambda: dot(n("-"), a) ** 2 + dot(n("+"), b),
+                           lambda: dot(n("-"), n("+")) + dot(n("-"), b)])()
     c = rng.randrange(9)
     if c == 0:
         return dot(Jm * Km * a, b)
@@ -143,6 +153,28 @@ def geo_factor(U, rng):
     if c == 7:
         return inner(dot(Jm, dot(Km, Jm)), Jm)
     return (dJ**2) ** 0.5 / R(CellVolume(U.mesh)) + abs(dJ) ** 1.5 / dJ
+
+
+def compound_factor(U, rng):
+    """An argument-free scalar through the compound matrix operators on a k x k matrix of constants (k up to 4, the
+    largest size the expansions know): inverse, cofactor, determinant, deviatoric part."""
+    from ufl import Identity, cofac, det, dev, inner, inv, tr
+
+    k = rng.choice([2, 3, 4, 4])
+    M = U.const((k, k), 0) + 5 * Identity(k)
+    N = U.const((k, k), 1)
+    c = rng.randrange(6)
+    if c == 0:
+        return inv(M)[0, k - 1] + inv(M)[k - 1, 0] * 2
+    if c == 1:
+        return inner(inv(M), N)
+    if c == 2:
+        return cofac(M)[1, 0] if k < 4 else tr(inv(M) * N)
+    if c == 3:
+        return det(M) / 5**k
+    if c == 4:
+        return inner(dev(N), N) if k < 4 else inv(M)[1, 2] - inv(M)[2, 1]
+    return tr(inv(M) * N) + inv(M + N)[0, 1]
 
 
 def gen_form(rng, cell, gdim, cplx, nint, arity, itypes_all, metadata_fn=None, subdomain_fn=None, depth=(1, 2)):
@@ -173,6 +205,8 @@ def gen_form(rng, cell, gdim, cplx, nint, arity, itypes_all, metadata_fn=None, s
             integrand, args = G.integrand(arity, depth=rng.choice(list(depth)), space_names=space_names)
             if rng.random() < 0.25:
                 integrand = integrand * (2 + geo_factor(U, rng))
+            if rng.random() < 0.1:
+                integrand = integrand * (2 + compound_factor(U, rng))
         sid = subdomain_fn(rng)
         md = metadata_fn(rng)
         piece = integrand * U.measure(sid, md)
